@@ -54,6 +54,34 @@ def gen_timing(rng, tier):
     return lines
 
 
+def gen_near_miss(rng, tier):
+    """C08 "never earlier": time in units of 2**-30 s; the frames add up to a hair (1 .. 2000 units, i.e.
+    less than 2 microseconds) less than the wait, then cross it; all values exact binary fractions."""
+    one = 2 ** 30
+    n = rng.randint(1, 3)
+    lines = ['unit 30']
+    for g in range(n):
+        w = rng.choice([one, one, 2 * one, one // 2, 3 * one])
+        lines.append(f'gen {g} : ' + ' | '.join([f'yield {w}'] * rng.randint(1, 3) + ['yield N', 'ret N']))
+    lines += [f'op start {g}' for g in range(n)]
+    lines.append(f'op process {rng.choice([0, one // 4])}')
+    for _ in range(rng.randint(2, 5)):
+        hair = rng.choice([1, 3, 100, 1000, 2000])
+        part = rng.choice([one // 2, one // 4, 3 * one // 4])
+        rest = rng.choice([one, one // 2]) - part - hair
+        lines += [f'op process {part}']
+        if rest > 0:
+            lines += [f'op process {rest}']
+        lines += [f'op process {hair}', 'op process 0'] if rng.random() < 0.7 else [f'op process {2 * hair}']
+    typed_lines = []
+    for ln in lines:
+        t = ln.split()
+        if rng.random() < 0.3 and t[:2] == ['op', 'process']:
+            ln = f'op process F{t[2]}'
+        typed_lines.append(ln)
+    return typed_lines
+
+
 def gen_lifecycle(rng, tier, max_gens=4, max_ops=25):
     """C09: interleavings of start/kill/state/process/value from outside and inside bodies."""
     n = rng.randint(1, max_gens)
